@@ -2,6 +2,7 @@ import BppModel.Proto
 import BppModel.OptimSpec
 import BppModel.OptimOneDim
 import BppModel.OptimMulti
+import BppModel.OptimLine
 /-
 Driver for C10 (optimisers).  Script grammar: see harness/C10.cpp.
 
@@ -110,6 +111,9 @@ inductive OptSt
   | simple (s : St FnF (Simple Float) Float)
   | snewton (s : St FnF (SNewton Float) Float)
   | simplex (s : St FnF (Simplex Float) Float)
+  | powell (s : St FnF (Powell Float) Float)
+  | cg (s : St FnF (Cg Float) Float)
+  | bfgs (s : St FnF (Bfgs Float) Float)
 deriving Inhabited
 
 structure Hint where
@@ -163,6 +167,9 @@ def coreOf : OptSt → Option (Core Float × FnF)
   | .simple s => some (s.core, s.fn)
   | .snewton s => some (s.core, s.fn)
   | .simplex s => some (s.core, s.fn)
+  | .powell s => some (s.core, s.fn)
+  | .cg s => some (s.core, s.fn)
+  | .bfgs s => some (s.core, s.fn)
   | _ => none
 
 def clearLog : OptSt → OptSt
@@ -173,6 +180,22 @@ def clearLog : OptSt → OptSt
   | .simple s => .simple { s with fn := { s.fn with log := [] } }
   | .snewton s => .snewton { s with fn := { s.fn with log := [] } }
   | .simplex s => .simplex { s with fn := { s.fn with log := [] } }
+  | .powell s => .powell { s with fn := { s.fn with log := [] } }
+  | .cg s => .cg { s with fn := { s.fn with log := [] } }
+  | .bfgs s => .bfgs { s with fn := { s.fn with log := [] } }
+  | o => o
+
+def mapCore (f : Core Float → Core Float) : OptSt → OptSt
+  | .gss s => .gss { s with core := f s.core }
+  | .brent s => .brent { s with core := f s.core }
+  | .nback s => .nback { s with core := f s.core }
+  | .newton1 s => .newton1 { s with core := f s.core }
+  | .simple s => .simple { s with core := f s.core }
+  | .snewton s => .snewton { s with core := f s.core }
+  | .simplex s => .simplex { s with core := f s.core }
+  | .powell s => .powell { s with core := f s.core }
+  | .cg s => .cg { s with core := f s.core }
+  | .bfgs s => .bfgs { s with core := f s.core }
   | o => o
 
 def logStr (fn : FnF) : String :=
@@ -220,6 +243,12 @@ def mkOpt (s : S) : OptSt :=
     .snewton { core := mkCore s.pol s.mx (tol 0.000001) 0, fn := s.fn0, ext := SNewton.fresh }
   | "simplex", _ =>
     .simplex { core := mkCore s.pol s.mx (tol 0.000001) 0, fn := s.fn0, ext := Simplex.fresh }
+  | "powell", _ =>
+    .powell { core := mkCore s.pol s.mx (tol 0.000001) 0, fn := s.fn0, ext := Powell.fresh }
+  | "cg", _ =>
+    .cg { core := mkCore s.pol s.mx (tol 0.000001) 0, fn := s.fn0, ext := Cg.fresh }
+  | "bfgs", _ =>
+    .bfgs { core := mkCore s.pol s.mx (tol 0.000001) 0, fn := s.fn0, ext := Bfgs.fresh }
   | _, _ => .unmodelled
 
 /-- result of a model call on the optimiser -/
@@ -241,6 +270,9 @@ def runInit (s : S) (pl : PList Float) : MRes :=
   | .simple st => w .simple ((simpleAlgo I fuelOf).init st pl)
   | .snewton st => w .snewton ((snewtonAlgo I fuelOf).init st pl)
   | .simplex st => w .simplex ((simplexAlgo I).init st pl)
+  | .powell st => w .powell ((powellAlgo I fuelOf).init st pl)
+  | .cg st => w .cg ((cgAlgo I fuelOf).init st pl)
+  | .bfgs st => w .bfgs ((bfgsAlgo I fuelOf).init st pl)
   | o => .ok o none
 
 def runStep (s : S) : MRes :=
@@ -257,6 +289,9 @@ def runStep (s : S) : MRes :=
   | .simple st => w .simple ((simpleAlgo I fuelOf).step st)
   | .snewton st => w .snewton ((snewtonAlgo I fuelOf).step st)
   | .simplex st => w .simplex ((simplexAlgo I).step st)
+  | .powell st => w .powell ((powellAlgo I fuelOf).step st)
+  | .cg st => w .cg ((cgAlgo I fuelOf).step st)
+  | .bfgs st => w .bfgs ((bfgsAlgo I fuelOf).step st)
   | o => .ok o none
 
 def runOptimize (s : S) : MRes :=
@@ -273,6 +308,9 @@ def runOptimize (s : S) : MRes :=
   | .simple st => w .simple ((simpleAlgo I fuelOf).optimize fuelOf st)
   | .snewton st => w .snewton ((snewtonAlgo I fuelOf).optimize fuelOf st)
   | .simplex st => w .simplex (simplexOptimize I fuelOf st)
+  | .powell st => w .powell (powellOptimize I fuelOf st)
+  | .cg st => w .cg ((cgAlgo I fuelOf).optimize fuelOf st)
+  | .bfgs st => w .bfgs ((bfgsAlgo I fuelOf).optimize fuelOf st)
   | o => .ok o none
 
 def modelled (o : OptSt) : Bool :=
@@ -330,10 +368,13 @@ def marginOk (cons : Spec.Cons Float) (pt : List Float) : Bool :=
 def writeInto (pt : List Float) (names : List Nat) (vals : List Float) : List Float :=
   (names.zip vals).foldl (fun p nv => p.set nv.1 nv.2) pt
 
-/-- kinds whose evaluation counter is known to undercount (line minimisations: the evaluations of
-each bracketing are not counted; Newton: one count per step whatever the number of
-Felsenstein-Churchill corrections) are reported under a clause of their own -/
-def lineMinKinds : List String := ["powell", "cg", "simple", "snewton", "meta", "newton1"]
+/-- kinds whose evaluation counter is known to undercount (coordinate-wise optimisers: the evaluations
+of each bracketing / initialisation of the one-dimensional optimiser are not counted; Newton: one count
+per step whatever the number of Felsenstein-Churchill corrections; meta: built on them) are reported
+under a clause of their own.  Powell, conjugate gradient and BFGS count every evaluation since the
+repair of `lineMinimization` / `lineSearch` (`powell_budget_calls`, …): for them, and for the other
+optimisers, more calls than the cap before the last step begins is a violation. -/
+def lineMinKinds : List String := ["simple", "snewton", "meta", "newton1"]
 
 def verdictRun (s : S) (o : String) (t : List String) : S × String :=
   let status := t.headD ""
@@ -444,6 +485,10 @@ def step (s : S) (op : List String) (impl : Option (List String)) : S × String 
     let s1 := { s with kind := kind, pol := pol, tolGiven := if tol == "-" then none else pF tol, mx := (nat? mx).getD 0,
                        extra := extra, fn0 := fn0 }
     ({ s1 with opt := mkOpt s1 }, "ok", "ok")
+  | ["setmax", n] =>
+    match nat? n with
+    | some n => ({ s with mx := n, opt := mapCore (fun c => { c with nbEvalMax := n }) s.opt }, "ok", "ok")
+    | none => (s, "bad-op", "-")
   | "bracket" :: mode :: a :: b :: nint :: ix :: v :: r =>
     match pF a, pF b, nat? nint, nat? ix, pF v, pCon r with
     | some a, some b, some nint, some ix, some v, some (c, r') =>
